@@ -310,7 +310,7 @@ static void scramForeignNonce(const ScramCase &k, Rng &rng)
     foreign.push_back(k.snonce);                                   // server nonce only
     foreign.push_back(cn.left(cn.size() - 1));                     // proper prefix of the client nonce
     foreign.push_back(cn.left(cn.size() - 1) + k.snonce);
-    { BA x = cn; int p = int(rng.below(uint32_t(x.size()))); x[p] = char(x.at(p) ^ 1); foreign.push_back(x + k.snonce); }
+    { BA x = cn; int p = int(rng.below(uint32_t(x.size()))); char c = char(x.at(p) ^ 1); if (c == ',') c = char(x.at(p) ^ 2); x[p] = c; foreign.push_back(x + k.snonce); }
     foreign.push_back(k.snonce + cn);                              // client nonce as a suffix
     foreign.push_back(BA());
     Client cl(k.cfg);
@@ -320,7 +320,8 @@ static void scramForeignNonce(const ScramCase &k, Rng &rng)
         expectRefused(cl, refServerFirst(n, k.salt, k.iters), "C06:scram-foreign-nonce-accepted");
     }
     expectRefused(cl, "s=" + k.salt.toBase64() + ",i=" + BA::number(k.iters), "C06:scram-foreign-nonce-accepted");   // no r= at all
-    expectRefused(cl, "r=" + k.snonce + ",r=" + cn + k.snonce + ",r=" + k.snonce + ",s=" + k.salt.toBase64() + ",i=1", "C06:scram-foreign-nonce-accepted");
+    if (!k.snonce.startsWith(cn))   // the last r= counts
+        expectRefused(cl, "r=" + k.snonce + ",r=" + cn + k.snonce + ",r=" + k.snonce + ",s=" + k.salt.toBase64() + ",i=1", "C06:scram-foreign-nonce-accepted");
     // the refusals must not have consumed the step: the honest message is still answered
     auto fin = cl.respond(refServerFirst(cn + k.snonce, k.salt, k.iters));
     if (!fin) oracleFail("C06:scram-honest-server-first-refused", cl.history); else oraclePass()++;
